@@ -1,8 +1,13 @@
 #!/bin/sh
-# re-run every kept seeded change against its property's quick check; one line per change
+# re-run every kept seeded change against its property's quick check; one line per change.
+# all_seeded.sh [k n]: only the changes whose position is k modulo n (to split the work over parallel runs)
 V="$(cd "$(dirname "$0")/.." && pwd)"
+K="${1:-0}"; N="${2:-1}"
 cd "$V"
+i=0
 for d in seeded/C*; do
+  i=$((i+1))
+  [ $((i % N)) -eq "$K" ] || continue
   id=$(basename $d | cut -c1-3)
   r=$(checklib/try_seeded.sh $id "$V/$d/patch.diff" 2>&1 | grep 'tier=\|patch does not apply\|repo not clean' | sed 's/.*-> //')
   echo "$(basename $d) $r"
